@@ -6,6 +6,7 @@ From Coq Require Import List NArith Bool Lia ZifyBool ZifyN ZifyNat.
 From Shovel Require Import Model.TaskTypes Model.TaskDb Model.Task Model.TaskNode Model.TaskSys
   Model.TaskSpec Proofs.TaskArithP Proofs.TaskDbP Proofs.TaskExecP Proofs.TaskLoadP Proofs.TaskInvP
   Proofs.TaskLegacyP Proofs.TaskStepP Proofs.TaskChainP Proofs.C03P Proofs.TaskLiveP.
+From Shovel Require Proofs.C01P.
 Import ListNotations.
 Open Scope N_scope.
 
@@ -424,3 +425,134 @@ Proof.
       subst g. destruct Hy.
   - rewrite Hpv in Hlen. cbn [render d_curs] in Hlen. rewrite map_length in Hlen. exact Hlen.
 Qed.
+
+(* ---------- retry_equiv on reorg histories ---------- *)
+(* The node serves the final chain [ch] (answers are its blocks, or fail); the
+   recorded batches are [p] (the final chain's) followed by orphaned [q].  A
+   step under ANY fault plan that does not report success can only have
+   unwound orphaned batches: it leaves p ++ q' with q = q' ++ q''.  The
+   fault-free retry from that state ends in the same pair and outside as the
+   fault-free step from the original state. *)
+Section Retry.
+Variable c : tcfg.
+Variable ch : chain.
+Hypothesis Hc : cfg_ok c.
+Hypothesis Hwf : wf_chain ch.
+Hypothesis Hsmall : height ch < nmax.
+Hypothesis Hdeps : t_deps c = [].
+Hypothesis Hkeys : forall b, In b ch -> NoDup (map fst (b_rows b)).
+Hypothesis Hhs : t_hashes c = true.
+
+Notation Gr := (growth_reply true ch).
+Definition NDAr (i : io) (r : reply) : Prop := growth_reply true ch i r /\ r <> RFail KDropAfter.
+Definition HPr (n h : N) : Prop := exists b, blk_at ch n = Some b /\ b_hash b = h.
+Definition RJr (p' : list batch) : Prop :=
+  match rev p' with [] => True | b :: _ => orphan ch b end.
+
+Lemma Gr_ok : forall i r, NDAr i r -> reply_ok i r.
+Proof.
+  intros i r [H _]. pose proof (C01P.Gg_ok c ch Hwf Hsmall i r) as K. rewrite Hhs in K. apply K. exact H.
+Qed.
+
+Lemma Gr_on_chain : forall ps segs f, Gr (RGet ps) (RSegs segs) ->
+  In f (concat (map seg_blocks segs)) -> on_chain true ch f.
+Proof.
+  intros ps segs f Hg Hin. pose proof (C01P.Gg_bp c ch Hwf Hsmall ps segs) as K. rewrite Hhs in K.
+  specialize (K Hg). rewrite Forall_forall in K. apply K. exact Hin.
+Qed.
+
+Lemma rj_orphan : forall p' ln lh ps segs f,
+  W c (fun _ => True) p' -> pos_of c HPr (fun _ => True) p' ln lh -> NDAr (RGet ps) (RSegs segs) ->
+  In f (concat (map seg_blocks segs)) -> b_num f = ln + 1 -> b_parent f <> 0 -> lh <> b_parent f -> RJr p'.
+Proof.
+  intros p' ln lh ps segs f Hw Hpos [Hg _] Hin Hn Hp Hl. unfold RJr.
+  unfold pos_of, gpos in Hpos. destruct (rev p') as [|b r]; [exact I|]. destruct Hpos as [-> ->].
+  destruct (Gr_on_chain ps segs f Hg Hin) as (x & Hx & Ef). cbn [vblk] in Ef. subst f.
+  intros y Hy. intros E. apply Hl. rewrite E.
+  rewrite Hn in Hx. destruct (wf_chain_at ch _ x Hwf Hx) as (_ & _ & Hpar).
+  replace (b_num (last_blk b) + 1 - 1) with (b_num (last_blk b)) in Hpar by lia.
+  symmetry. apply (Hpar y ltac:(lia) Hy).
+Qed.
+
+(* unwinding justified by orphans never enters the final chain's batches *)
+Lemma unw_orphans : forall g p2, unw RJr g p2 ->
+  forall p q, g = p ++ q ->
+  (match rev p with [] => True | b :: _ => ~ orphan ch b end) ->
+  exists q', p2 = p ++ q' /\ exists q'', q = q' ++ q''.
+Proof.
+  intros g p2 Hu. induction Hu as [|p2 b _ IH Hrj]; intros p q Eg Hp.
+  - exists q. split; [exact Eg|]. exists []. symmetry. apply app_nil_r.
+  - destruct (IH p q Eg Hp) as (q' & E1 & q'' & E2).
+    destruct q' as [|x q1] using rev_ind.
+    + rewrite app_nil_r in E1. exfalso. subst p. unfold RJr in Hrj. rewrite rev_unit in Hrj, Hp.
+      exact (Hp Hrj).
+    + clear IHq1. rewrite app_assoc in E1. apply app_inj_tail in E1. destruct E1 as [E1 _].
+      exists q1. split; [exact E1|]. exists (x :: q''). rewrite E2, <- app_assoc. reflexivity.
+Qed.
+
+Lemma retry_reorg_lemma : forall d p q ln x s o,
+  pv c d = render c (p ++ q) -> wf_ghost c (p ++ q) ->
+  Forall (on_chain (t_hashes c) ch) (concat p) -> Forall (orphan ch) q ->
+  (forall y, In y (concat (p ++ q)) -> b_num y < clip c (height ch - 1)) ->
+  (length q <= 1000)%nat ->
+  blk_at ch ln = Some x -> at_pos c p ln -> ln < clip c (height ch - 1) ->
+  (* the failed step: any faults, answers of the final chain or failures *)
+  trace_sat NDAr (step c s d) -> r_out (step c s d) = Fin o -> o <> OConverged ->
+  let F := (6 * length q + 12)%nat in
+  let d' := r_db (step c s d) in
+  r_out (exec_honest F (t_uniq c) (t_hashes c) ch (converge c) d' None) = Fin OConverged
+  /\ pv c (r_db (exec_honest F (t_uniq c) (t_hashes c) ch (converge c) d' None))
+     = pv c (r_db (exec_honest F (t_uniq c) (t_hashes c) ch (converge c) d None))
+  /\ outside c (r_db (exec_honest F (t_uniq c) (t_hashes c) ch (converge c) d' None))
+     = outside c (r_db (exec_honest F (t_uniq c) (t_hashes c) ch (converge c) d None)).
+Proof.
+  intros d p q ln x s o Hpv Hw Hon Hor Hbelow Hq Hx Hpos Hlt Ht Ho Hne. cbn zeta.
+  (* what the failed step left *)
+  assert (HW : W c (fun _ => True) (p ++ q)) by (split; [exact Hw|apply Forall_True]).
+  destruct (step_not_converged c NDAr (fun _ => True) True (fun _ => True) HPr (fun _ => True) RJr Hc
+              Gr_ok (fun _ _ _ => Forall_True _) (fun n h H => proj1 H) (fun _ _ _ _ => I) (fun _ _ => I)
+              rj_orphan (p ++ q) d s Hpv HW (Forall_True s) Ht o (fun i r H => proj2 H) Ho Hne)
+    as (p2 & q2 & Eg & Hu & Hp2).
+  destruct (step_all c NDAr (fun _ => True) True (fun _ => True) HPr (fun _ => True) RJr Hc
+              Gr_ok (fun _ _ _ => Forall_True _) (fun n h H => proj1 H) (fun _ _ _ _ => I) (fun _ _ => I)
+              rj_orphan (p ++ q) d s Hpv HW (Forall_True s) Ht) as (_ & (Hout & _) & _).
+  assert (Hpne : match rev p with [] => True | b :: _ => ~ orphan ch b end).
+  { destruct (rev p) as [|b r] eqn:Er; [exact I|].
+    apply (f_equal (@rev _)) in Er. rewrite rev_involutive in Er. cbn [rev] in Er.
+    assert (Hwp : wf_ghost c p) by (eapply wf_ghost_prefix; exact Hw).
+    pose proof Hwp as (Hne' & _). rewrite Forall_forall in Hne'.
+    assert (Hb : b <> []) by (apply Hne'; rewrite Er; apply in_or_app; right; left; reflexivity).
+    assert (Hl : In (last_blk b) (concat p)).
+    { rewrite Er. apply (in_concat_batch _ b); [apply in_or_app; right; left; reflexivity|apply last_blk_in; exact Hb]. }
+    rewrite Forall_forall in Hon. destruct (Hon _ Hl) as (y & Hy & Ey). rewrite Hhs in Ey. cbn [vblk] in Ey.
+    intros Horph. apply (Horph y Hy). rewrite <- Ey. reflexivity. }
+  destruct (unw_orphans _ _ Hu p q eq_refl Hpne) as (q' & -> & q'' & ->).
+  (* both fault-free steps *)
+  assert (Hw' : wf_ghost c (p ++ q')).
+  { rewrite app_assoc in Hw. eapply wf_ghost_prefix. exact Hw. }
+  assert (Hor' : Forall (orphan ch) q') by (apply Forall_app in Hor; apply Hor).
+  assert (Hbelow' : forall y, In y (concat (p ++ q')) -> b_num y < clip c (height ch - 1)).
+  { intros y Hy. apply Hbelow. rewrite app_assoc, concat_app. apply in_or_app. left. exact Hy. }
+  assert (Hq' : (length q' <= 1000)%nat) by (rewrite app_length in Hq; lia).
+  set (d' := r_db (step c s d)) in *.
+  destruct (settled_step c ch Hc Hwf Hsmall Hdeps Hkeys Hhs d p (q' ++ q'') ln x Hpv Hw Hon Hor Hbelow Hq Hx Hpos Hlt 0%nat)
+    as (ws1 & Hown1 & Happ1 & E1).
+  destruct (settled_step c ch Hc Hwf Hsmall Hdeps Hkeys Hhs d' p q' ln x Hp2 Hw' Hon Hor' Hbelow' Hq' Hx Hpos Hlt
+                         (6 * length q'')%nat)
+    as (ws2 & Hown2 & Happ2 & E2).
+  replace (6 * length (q' ++ q'') + 12 + 0)%nat with (6 * length (q' ++ q'') + 12)%nat in E1 by lia.
+  replace (6 * length q' + 12 + 6 * length q'')%nat with (6 * length (q' ++ q'') + 12)%nat in E2
+    by (rewrite app_length; lia).
+  unfold hx in E1, E2.
+  pose proof (f_equal (fun t => fst (fst t)) E2) as O2. pose proof (f_equal (fun t => snd (fst t)) E1) as D1.
+  pose proof (f_equal (fun t => snd (fst t)) E2) as D2. cbn [fst snd] in O2, D1, D2.
+  rewrite O2, D1, D2. split; [reflexivity|].
+  assert (Hwp : wf_ghost c p) by (eapply wf_ghost_prefix; exact Hw').
+  assert (P1 : pv c (apply_ws ws1 d) = render c p) by (rewrite pv_apply_ws_own by exact Hown1; exact Happ1).
+  assert (P2 : pv c (apply_ws ws2 d') = render c p) by (rewrite pv_apply_ws_own by exact Hown2; exact Happ2).
+  destruct (honest_step_state c ch Hc Hwf Hsmall Hkeys p (apply_ws ws1 d) ln x P1 Hwp Hon Hx Hpos Hlt) as (A1 & B1 & _).
+  destruct (honest_step_state c ch Hc Hwf Hsmall Hkeys p (apply_ws ws2 d') ln x P2 Hwp Hon Hx Hpos Hlt) as (A2 & B2 & _).
+  split; [rewrite A1, A2; reflexivity|].
+  rewrite B1, B2, (outside_apply_ws_own c ws1 d Hown1), (outside_apply_ws_own c ws2 d' Hown2). exact Hout.
+Qed.
+End Retry.
